@@ -43,6 +43,7 @@ type tgt struct {
 	NamedData []string `json:"named_data,omitempty"`
 	Deps      []string `json:"deps,omitempty"`      // labels
 	DataDeps  []string `json:"data_deps,omitempty"` // data = [label]
+	DataNamed bool     `json:"data_named,omitempty"` // the data dependencies are declared as data = {"n": [label]}
 	Requires  bool     `json:"requires,omitempty"`  // requires = ["l"]
 	Provides  string   `json:"provides,omitempty"`  // provides = {"l": label}
 	TestCmd   string   `json:"test_cmd,omitempty"`  // non-empty: a test target
@@ -248,8 +249,8 @@ func (r *repo) legal() bool {
 
 func defString(t tgt) string {
 	s := func(xs []string) string { ys := cloneStrs(xs); sort.Strings(ys); return strings.Join(ys, ",") }
-	return fmt.Sprintf("cmd=%s|srcs=%s|nsrcs=%s|data=%s|ndata=%s|deps=%s|ddeps=%s|req=%v|prov=%s|test=%s",
-		t.Cmd, strings.Join(t.Srcs, ","), strings.Join(t.NamedSrcs, ","), strings.Join(t.Data, ","), strings.Join(t.NamedData, ","), s(t.Deps), s(t.DataDeps), t.Requires, t.Provides, t.TestCmd)
+	return fmt.Sprintf("cmd=%s|srcs=%s|nsrcs=%s|data=%s|ndata=%s|deps=%s|ddeps=%s|req=%v|prov=%s|test=%s|dnamed=%v",
+		t.Cmd, strings.Join(t.Srcs, ","), strings.Join(t.NamedSrcs, ","), strings.Join(t.Data, ","), strings.Join(t.NamedData, ","), s(t.Deps), s(t.DataDeps), t.Requires, t.Provides, t.TestCmd, t.DataNamed && len(t.DataDeps) > 0)
 }
 
 // keys: the recursive build key of every target: own definition, versions of the files it consumes, keys of resolved deps.
@@ -402,7 +403,11 @@ func buildState(state *core.BuildState, r *repo) {
 			bt.AddDependency(lab(d))
 		}
 		for _, d := range t.DataDeps {
-			bt.AddDatum(lab(d))
+			if t.DataNamed {
+				bt.AddNamedDatum("n", lab(d))
+			} else {
+				bt.AddDatum(lab(d))
+			}
 		}
 		if t.Requires {
 			bt.AddRequire("l")
@@ -943,8 +948,23 @@ func spaceA(quick bool, out chan<- job) {
 
 // graphRepos enumerates the propagation repos: n targets t0..t(n-1), each in package "" or "a", each with no input or
 // src x.txt of its package; typed edges i->j (i<j): none | dep | data-dep (data-deps only if dataDeps); at most one
-// provider j with provides -> k (k != j); any subset of requirers among the dependents of the provider.
-func graphRepos(n int, dataDeps bool, twoPkgs bool, reqAlone bool, visit func(r repo)) {
+// provider j with provides -> k (k != j); any subset of requirers among the dependents (dep or data-dep) of the provider.
+// Each repo with data-deps is produced in two spellings: data = [labels] and data = {"n": [labels]}.
+func graphRepos(n int, dataDeps bool, twoPkgs bool, reqAlone bool, visit0 func(r repo)) {
+	// every repo with data dependencies is visited twice: data = [labels] and data = {"n": [labels]}
+	visit := func(r repo) {
+		visit0(r)
+		named := false
+		r2 := r.clone()
+		for i := range r2.Targets {
+			if len(r2.Targets[i].DataDeps) > 0 {
+				r2.Targets[i].DataNamed, named = true, true
+			}
+		}
+		if named {
+			visit0(r2)
+		}
+	}
 	pkgsOf := []string{""}
 	if twoPkgs {
 		pkgsOf = []string{"", "a"}
@@ -1005,7 +1025,7 @@ func graphRepos(n int, dataDeps bool, twoPkgs bool, reqAlone bool, visit func(r 
 				for j := 0; j < n; j++ {
 					var preds []int
 					for i := 0; i < n; i++ {
-						if has(ts[i].Deps, ts[j].label()) {
+						if has(ts[i].Deps, ts[j].label()) || has(ts[i].DataDeps, ts[j].label()) {
 							preds = append(preds, i)
 						}
 					}
